@@ -396,6 +396,33 @@ fn prop(c: &Case) -> Verdict {
             let pkts = case_pkts(c, 3);
             let got = understand_stream(&pkts, &prefixes);
             let Some((v2, adv)) = Adv::parse_meta(f_str(c, 2)) else {
+                // damaged stream: no expected ref set, but whatever is reported as symbolic under v0/v1 must
+                // be spelled out, byte for byte, by a `symref=<name>:<target>` capability of the first line
+                if let Ok(Understood { version, refs: Ok(refs), .. }) = &got {
+                    if *version < 2 {
+                        let caps: Vec<Vec<u8>> = match pkts.first() {
+                            Some(Pkt::Data(d)) => {
+                                let t = d.strip_suffix(b"\n").unwrap_or(d);
+                                match t.find_byte(0) {
+                                    Some(z) => t[z + 1..].split(|b| *b == b' ').map(|c| c.to_vec()).collect(),
+                                    None => vec![],
+                                }
+                            }
+                            _ => vec![],
+                        };
+                        for r in refs {
+                            if let Ref::Symbolic { full_ref_name, target, .. } = r {
+                                let want = [&b"symref="[..], &full_ref_name[..], &b":"[..], &target[..]].concat();
+                                if !caps.contains(&want) {
+                                    return Verdict::fail(
+                                        "raw-symref-target",
+                                        format!("reported {} -> {} without capability {:?}", full_ref_name, target, String::from_utf8_lossy(&want)),
+                                    );
+                                }
+                            }
+                        }
+                    }
+                }
                 return Verdict::ok(false, if got.is_ok() { "raw-accepted" } else { "raw-refused" });
             };
             let want_stream = if v2 { adv.stream_v2(&prefixes) } else { adv.stream_v0() };
